@@ -359,12 +359,16 @@ def _empty_container(v):
 
 
 def tracked_lists(root):
-    """self attributes the solve root appends a sent object to."""
+    """self attributes to which the solve root appends an object that it also hands to a send call."""
+    sent = set()
+    for c in ast.walk(root):
+        if isinstance(c, ast.Call) and call_name(c) in ("send_constraint_to_solver", "send_lmi_constraint_to_solver") and c.args:
+            sent.add(src(c.args[-1]))
     out = set()
     for c in ast.walk(root):
-        if isinstance(c, ast.Call) and call_name(c) == "append" and isinstance(c.func, ast.Attribute):
+        if isinstance(c, ast.Call) and call_name(c) == "append" and isinstance(c.func, ast.Attribute) and len(c.args) == 1:
             d = dotted(c.func.value)
-            if d and d.startswith("self._list_of") and "sent" in d:
+            if d and d.startswith("self.") and d.count(".") == 1 and src(c.args[0]) in sent:
                 out.add(d.split(".", 1)[1])
     if len(out) < 2:
         raise AnalysisError("solve root: fewer than two tracking lists found (%s)" % sorted(out))
